@@ -141,7 +141,9 @@ InvalidateCreating(b, X) ==
   [b EXCEPT !.ob = [o \in All |-> IF o \in X /\ b.ob[o].cached
                                   THEN IF o \in Blobs THEN [Disown(b.ob[o]) EXCEPT !.st = IF @ = GhostSt THEN @ ELSE Gone]
                                        ELSE Disown(IF InvalidateDoomed THEN b.ob[o] ELSE Revive(b, o))
-                                  ELSE b.ob[o]]]
+                                  ELSE b.ob[o]],
+            \* a savepoint blob file is found by oid: the file of a disowned blob is out of reach (the oid is gone)
+            !.tmp.blob = [o \in All |-> IF o \in X /\ b.ob[o].cached THEN "-" ELSE @[o]]]
 
 \* Connection._abort(): registered objects; `doomed` = objects the caller is going to disown next
 AbortRegistered(b, doomed) ==
